@@ -67,15 +67,18 @@ fn main() {
     let seed = args.seed;
     let n = args.threads.max(1);
     let ns = n as u64;
+    // debugging aid only (never set by bin/check): override the scenario count
+    let cases_override: Option<u64> =
+        std::env::var("VMON_HIST_CASES").ok().and_then(|s| s.parse().ok());
     let mut rep: Report = match args.engine.as_str() {
         "c16-disconnect" => {
-            let total: u64 = if quick { 480 } else { 30_000 };
+            let total: u64 = cases_override.unwrap_or(if quick { 480 } else { 30_000 });
             let mut out = sharded(n, move |s| c16::run_shard(seed, s, ns, total, quick));
             c16::finish(&mut out);
             out.rep
         }
         "c17-shutdown" => {
-            let total: u64 = if quick { 640 } else { 10_000 };
+            let total: u64 = cases_override.unwrap_or(if quick { 640 } else { 10_000 });
             let mut out = sharded(n, move |s| c17::run_shard(seed, s, ns, total));
             c17::finish(&mut out, seed);
             out.rep
